@@ -67,3 +67,15 @@ pub fn unwrap_batch<R: BatchResult>(r: R) -> Vec<Bytes> {
         None => panic!("well-formed batch rejected"),
     }
 }
+
+/// Observer for "allocation unrelated to the size of the input": stands in for
+/// `Vec::resize` where a decoder sizes a buffer from a length read off the wire.
+pub static mut ALLOC_LIMIT: usize = usize::MAX;
+pub fn resize_guard<T: Clone, A: std::alloc::Allocator>(v: &mut Vec<T, A>, new_len: usize, value: T) {
+    assert!(new_len <= unsafe { ALLOC_LIMIT }, "decoder sizes a buffer from an untrusted length prefix, beyond the size of its input");
+    // within the limit: behave like resize for the small sizes the harness allows
+    while v.len() < new_len {
+        v.push(value.clone());
+    }
+    v.truncate(new_len);
+}
